@@ -16,7 +16,7 @@ def nodupB (l : List Int) : Bool := l.eraseDups.length == l.length
 
 /-- ids are a key, positive, and not beyond the AUTOINCREMENT counter. -/
 def idsOk {α} (t : Table α) (seq : Int) : Bool :=
-  nodupB (ids t) && (ids t).all (fun i => 0 < i && i ≤ seq)
+  nodupB (ids t) && (ids t).all (fun i => 0 < i && i ≤ seq) && decide (0 ≤ seq)
 
 /-- Every key's rows form one chain: walking back from `next = 0` meets every row of the key exactly once. -/
 def chainsOk {α} (t : Table α) : Bool :=
@@ -45,7 +45,7 @@ def entitiesOk (d : Db) : Bool :=
   d.pe.all (fun e => plExists d e.key && decide (0 < e.val.track) && (e.val.uuid != 0 || d.tracks.contains e.val.track)) &&
   d.pe.all (fun e => !d.pe.any (fun e' => e'.id != e.id && e'.key == e.key && e'.val == e.val))
 
-def tracksOk (d : Db) : Bool := nodupB d.tracks && d.tracks.all (fun i => 0 < i && i ≤ d.trSeq)
+def tracksOk (d : Db) : Bool := nodupB d.tracks && d.tracks.all (fun i => 0 < i && i ≤ d.trSeq) && decide (0 ≤ d.trSeq)
 
 /-- The chain part alone (holds also under the table-level entity operations). -/
 def chainChecks (d : Db) : List (String × Bool) :=
